@@ -37,6 +37,7 @@ import numpy as np
 import math
 import copy
 import re
+from fractions import Fraction
 
 from . import utils
 from . import _n_word_max, _max_error
@@ -873,12 +874,22 @@ class Fxp():
             # val_dtype determination
             _n_word_max_ = min(_n_word_max, 64)
             _use_pyint = np.max(val) >= 2**_n_word_max_ or np.min(val) < -2**_n_word_max_ or self.n_word >= _n_word_max_
-            if not _use_pyint and isinstance(conv_factor, int) and (val.dtype != np.uint64 or not raw) and \
-                (val.dtype == object or np.issubdtype(val.dtype, np.integer)):
-                # integer values whose scaled magnitude does not fit in int64 are computed with Python integers
-                # (an int64 product would wrap silently); raw uint64 codes keep their reinterpretation as int64
+            _is_int_val = val.dtype != object and np.issubdtype(val.dtype, np.integer) or \
+                (val.dtype == object and all(isinstance(v, (int, np.integer)) for v in val.flatten()))
+            if val.dtype == object and any(isinstance(v, Fraction) for v in val.flatten()):
+                _use_pyint = True       # exact rationals (a rescaled raw value of more than 53 bits): rounded exactly
+            elif _is_int_val and not isinstance(conv_factor, int) and max(abs(int(np.max(val))), abs(int(np.min(val)))) >= 2**53:
+                # negative n_frac (the factor is a float): integers of more than 53 bits are scaled as exact rationals
+                conv_factor = Fraction(1, 1 << -self.n_frac)
+                _use_pyint = True
+            elif not _use_pyint and _is_int_val and (val.dtype != np.uint64 or not raw):
                 _abs_max = max(abs(int(np.max(val))), abs(int(np.min(val))))
-                _use_pyint = conv_factor >= 2**(_n_word_max_ - 1) or _abs_max * conv_factor >= 2**(_n_word_max_ - 1)
+                if isinstance(conv_factor, int):
+                    # integer values whose scaled magnitude does not fit in int64 are computed with Python integers
+                    # (an int64 product would wrap silently); raw uint64 codes keep their reinterpretation as int64;
+                    # nor are integers of more than 53 bits cast to a float value type
+                    _use_pyint = conv_factor >= 2**(_n_word_max_ - 1) or _abs_max * conv_factor >= 2**(_n_word_max_ - 1) or \
+                        (_abs_max >= 2**53 and not (original_vdtype == int or (original_vdtype != complex and np.issubdtype(original_vdtype, np.integer))))
 
             if _use_pyint:
                 val = val.astype(object)
@@ -956,7 +967,7 @@ class Fxp():
         self._update_dtype()
 
         # check inaccuracy
-        if not np.equal(val, new_val/conv_factor).all() :
+        if not np.equal(val, new_val if (isinstance(conv_factor, int) and conv_factor == 1) else new_val/conv_factor).all() :
             self.status['inaccuracy'] = True
             self._run_callbacks('on_status_inaccuracy')
 
@@ -1133,7 +1144,7 @@ class Fxp():
         
         if self.config.overflow == 'saturate':
             if isinstance(new_val, np.ndarray) and new_val.dtype == object:
-                val = np.clip(new_val, val_min, val_max)
+                val = np.asarray(np.clip(new_val, val_min, val_max), dtype=object)      # (0-d: np.clip returns a bare object)
             else:
                 val = utils.clip(new_val, val_min, val_max)
 
@@ -1149,7 +1160,7 @@ class Fxp():
         elif np.issubdtype(np.array(val).dtype, np.object_):
             # object arrays hold Python integers (nothing to round) and/or floats, which are rounded one by one
             _val = np.array(val)
-            rval = np.array([v if isinstance(v, (int, np.integer)) else self._round(np.float64(v), method=method) for v in _val.flatten()], 
+            rval = np.array([v if isinstance(v, (int, np.integer)) else (self._round_exact(v, method) if isinstance(v, Fraction) else self._round(np.float64(v), method=method)) for v in _val.flatten()], 
                             dtype=object).reshape(_val.shape)
         elif method == 'around':
             rval = np.around(val)
@@ -1166,6 +1177,21 @@ class Fxp():
         else:
             raise ValueError('<{}> rounding method not valid!')
         return rval
+
+    @staticmethod
+    def _round_exact(v, method):
+        # exact rounding of a rational (fractions.Fraction) to an integer
+        if method == 'around':
+            return round(v)             # ties to even
+        elif method == 'floor':
+            return math.floor(v)
+        elif method == 'ceil':
+            return math.ceil(v)
+        elif method == 'fix' or method == 'trunc':
+            return math.trunc(v)
+        elif method is None or method == '':
+            return v
+        raise ValueError('<{}> rounding method not valid!'.format(method))
 
     def _run_callbacks(self, method):
         if self.callbacks:
